@@ -402,6 +402,51 @@ def run(rep):
     ib = find_def(mod, 'InterfaceBase')
     u = cside.cu(rep)
 
+    # ---- R14.2: _call_conform (used by both twins) over path summaries ---------------
+    from ..sympath import summaries as _S
+    from .sem import nt as _nt
+    cc = find_def(mod, 'InterfaceClass._call_conform')
+    TB = 'sys.exc_info()[2].tb_next is None'
+    probs = []
+    kinds = set()
+    for ps in _S(cc, normal_only=False):
+        if ps.kind == 'raise' and ps.ret_node is None:
+            continue          # propagated from a call: nothing swallowed
+        excs = [c for c, t, p in ps.order if c.startswith('EXCEPT(')]
+        if not excs:
+            if ps.kind == 'raise':
+                continue
+            kinds.add('plain')
+            if _nt(ps.ret) != 'conform(self)':
+                probs.append('returns `%s` (required conform(self))' % _nt(ps.ret)[:40])
+            continue
+        if excs != ['EXCEPT(TypeError)']:
+            probs.append('handles %s' % excs)
+            continue
+        other = [c for c, t, p in ps.order if c not in ('EXCEPT(TypeError)', TB)]
+        if other:
+            probs.append('a TypeError is kept or dropped depending on `%s`' % other[0][:60])
+            continue
+        own = ps.facts.get(TB)
+        if own is None:
+            probs.append('a TypeError is handled without looking at the traceback depth')
+        elif own:
+            kinds.add('unbound-call')
+            if ps.kind == 'raise' or _nt(ps.ret) != 'None':
+                probs.append('the TypeError of calling an unbound __conform__ is not '
+                             'turned into None')
+        else:
+            kinds.add('genuine')
+            if ps.kind != 'raise' or ps.raised is not None:
+                probs.append('a TypeError raised inside __conform__ is not re-raised')
+    if kinds != {'plain', 'unbound-call', 'genuine'}:
+        probs.append('cases seen %s' % sorted(kinds))
+    rep.check('R14.2', 'InterfaceClass._call_conform', not probs,
+              'calls conform(self); a TypeError is swallowed only when it was raised '
+              'by the call itself (traceback depth 1: unbound method on a class), any '
+              'TypeError from inside __conform__ propagates' if not probs else
+              {'problems': sorted(set(probs))[:3]}, construct='call-conform', node=cc)
+
     # ---- R14.1 / R14.2 / R14.5 (PY) ----------------------------------------------
     pt = py_call_table(ib)
     bad1, bad2 = [], []
